@@ -6,7 +6,7 @@ cd /repo || exit 2
 if ! git diff --quiet; then echo "repo dirty" >&2; exit 2; fi
 if ! git apply --3way "$P" >/dev/null 2>&1; then
   git checkout -- . ; git reset -q --hard HEAD
-  if ! patch -p1 --fuzz=3 -s < "$P"; then echo "PATCH DOES NOT APPLY" >&2; git checkout -- .; git clean -fdq -e '*.orig' -e '*.rej'; exit 3; fi
+  if ! patch -p1 --fuzz=3 -s < "$P"; then echo "PATCH DOES NOT APPLY" >&2; git checkout -- .; rm -f *.orig *.rej; git clean -fdq -e '*.orig' -e '*.rej'; exit 3; fi
 fi
 git reset -q   # unstage whatever --3way staged
 cd /verif && bash bin/verif check "$ID" --tier "$TIER" > /tmp/try_seed.out 2>/tmp/try_seed.err; rc=$?
